@@ -177,18 +177,24 @@ def run(ctx):
         report(ctx, crecs, strict=False)
         mark("validate_corpus")
         ctx.cov["phase_s"] = phase
+        for s in totals.values():
+            for smp in s.pop("samples", []):
+                ctx.sample(smp)
         agree = sum(s["agree"] for s in totals.values())
+        nontrivial = sum(s.get("agree_and_wrote_memory", 0) for s in totals.values())
         runs = sum(s["runs"] for s in totals.values())
         ctx.cov["validation"] = totals
         ctx.cov["option_sets"] = {n: D.OPTION_SETS[n] for n in optsets}
         ctx.cov["evaluations"] = runs + len(rows)
         ctx.cov["traces_validated_against_impl"] = agree
-        ctx.cov["distinct_nontrivial"] = agree
+        ctx.cov["distinct_nontrivial"] = nontrivial
         ctx.cov["rule"] = ("probe: one micro-program per (operator | builtin | conversion, scalar kind, scalar/vec2/vec3/vec4 or matrix "
                            "shape), distinct by key; validation: (program, hlsl.Options set, input) triples, inputs drawn from the "
                            "boundary pool (0, +-1, INT_MIN, INT_MAX, UINT_MAX, 31/32/33, subnormals, NaN, inf) and a small-number "
-                           "pool; non-trivial = both interpreters completed and every storage buffer agrees byte for byte")
-        ctx.sample({"handwritten_programs": len(P.PROGRAMS), "known_finding_programs": [n for n, _ in P.KNOWN]})
+                           "pool; non-trivial = both interpreters completed, every storage buffer agrees byte for byte and the run changed at "
+                           "least one buffer (distinct (program, options, input) triples, counted)")
+        ctx.sample({"probe_row": {k2: rows[0][k2] for k2 in ("op", "ty", "shape", "template")}} if rows else {})
+        ctx.cov["programs"] = len(P.PROGRAMS) + len(P.KNOWN) + len(corpus)
     if broken and not ctx.violations:
         ctx.violation(broken, found_input=False, broken=broken, key="c03-broken-tie")
     elif broken:
